@@ -126,3 +126,21 @@ contract(SH + "shaving_consistency_algorithm", variant="fix", types=ENGINE_T, pr
     call_ghosts=SHB.extra["call_ghosts"], modifies=SHB.modifies, loops={1: flo},
     ensures=[c for c in SHB.ensures if c[0] != "C02.preserve"] + FIX_ENS,
     tags={"C08": ["C08", "C01", "C02"], "C10": ["C08"], "C07": ["C08"], "C17": ["C08"], "C09": ["C08"], "wf": ["C16"]}, arities=[], timeout_ms=200000)
+
+
+# ------------------------------------------------------------------ J alone through shaving (no hypothesis on the masks), see bound_consistency_algorithm#j
+contract(SH + "shave_bound", variant="j", types=SB_T, result="bool", props=["C01", "C07"],
+    requires=list(SBB.requires) + [("C01.J0", J_TOP)],
+    ghost_results=SBB.extra["ghost_results"], ghost=SBB.ghost, call_ghosts=SBB.extra["call_ghosts"], defs=[V_DEF], modifies=SBB.modifies,
+    ensures=list(SBB.ensures) + [("C01.J", J_TOP)],
+    tags={"C01": ["C01", "C07"], "C10": ["C01"], "C17": ["C01"], "wf": ["C16"]}, arities=[], timeout_ms=200000)
+jlo = dict(SHB.loops[1])
+jlo["invariant"] = [c for c in jlo["invariant"] if "preserve" not in c[0]] + [("C01.J", J_TOP)]
+for _k in ("decreases", "hints", "step_hints", "step_ensures"):
+    jlo.pop(_k, None)
+contract(SH + "shaving_consistency_algorithm", variant="j", types=ENGINE_T, props=["C01", "C07"],
+    requires=list(SHB.requires) + [("C01.J0", J_TOP)], ghost=SHB.ghost, defs=[V_DEF],
+    calls={"bound_consistency_algorithm": BCQ + "#j", "shave_bound": SH + "shave_bound#j"},
+    call_ghosts=SHB.extra["call_ghosts"], modifies=SHB.modifies, loops={1: jlo},
+    ensures=[c for c in SHB.ensures if c[0] != "C02.preserve"] + [ACC_ENS[1]],
+    tags={"C01": ["C01", "C07"], "C10": ["C01"], "C08": ["C01"], "C07": ["C01", "C07"], "C17": ["C01"], "C09": ["C01"], "wf": ["C16"]}, arities=[], timeout_ms=200000)
